@@ -60,7 +60,7 @@ def fields(line):
         mm = re.search(r"\b%s=(\S+)" % key, line)
         if mm:
             d[key] = mm.group(1)
-    mm = re.search(r"\blog=(.*?)(?: ?conds=|$)", line)
+    mm = re.search(r"\blog=(.*?)(?: ?conds=| ?syms=|$)", line)
     d["log"] = mm.group(1).strip() if mm else ""
     mm = re.search(r"\bconds=(\S*)", line)
     d["conds"] = mm.group(1) if mm else ""
